@@ -434,6 +434,17 @@ impl Property for C05 {
     }
 }
 
+/// What the subject's worker held at the end of the turn in which the subject died.
+#[derive(Clone, Debug)]
+struct DeathRec {
+    step: u64,
+    clock: u64,
+    /// index of the select the subject was in
+    k: usize,
+    mailbox: Vec<Msg>,
+    known: BTreeMap<usize, bool>,
+}
+
 #[derive(Clone, Debug)]
 struct TurnRec {
     step: u64,
@@ -469,6 +480,7 @@ pub struct SelMonitor {
     enter_step: BTreeMap<usize, u64>,
     /// child index -> steps at which the subject's worker drained a "not finished yet" answer for it
     none_answers: BTreeMap<usize, Vec<u64>>,
+    death: Option<DeathRec>,
     inner: super::c04::MsgMonitor,
     probes: BTreeMap<String, u64>,
     select_pcs: Vec<usize>,
@@ -520,6 +532,7 @@ impl SelMonitor {
             queries: BTreeMap::new(),
             enter_step: BTreeMap::new(),
             none_answers: BTreeMap::new(),
+            death: None,
             inner: super::c04::MsgMonitor::new_without_fifo("C05"),
             probes: BTreeMap::new(),
             select_pcs: Vec::new(),
@@ -734,6 +747,9 @@ impl Monitor for SelMonitor {
         }
         // snapshot after the turn
         self.last_mailbox = p.mailbox.iter().map(|m| msg_of(m, None, Some(ex), program)).collect();
+        if matches!(p.result, Some(Err(_))) && self.death.is_none() {
+            self.death = Some(DeathRec { step: world.steps, clock: out.clock.unwrap_or(0), k: completed, mailbox: self.last_mailbox.clone(), known: known.clone() });
+        }
         let mut k2 = BTreeMap::new();
         for (t, v) in &p.awaiting {
             if v.is_some()
@@ -788,7 +804,7 @@ impl Monitor for SelMonitor {
         let turns = self.turns.clone();
         let nsel = self.e.selects.len();
         if std::env::var("QSIM_DEBUG").is_ok() {
-            eprintln!("finished={:?}", self.finished);
+            eprintln!("finished={:?} queries={:?} enter={:?}", self.finished, self.queries, self.enter_step);
             for t in &turns {
                 eprintln!("turn step={} c={}..{} vc={:?} known={:?} incomplete={} entered={}", t.step, t.c_before, t.c_after, t.vc, t.known, t.exchange_incomplete, t.entered_this_turn);
             }
@@ -943,19 +959,43 @@ impl Monitor for SelMonitor {
                 }
             }
         }
-        // a subject that died must have died of a failed child listed in the select it was in
+        // a subject that died must have died of a failed child listed in the select it was in, and that
+        // child must have been the first ready source in written order: a failure is a select source like
+        // a result, it does not overtake a ready earlier-written source, and a process listed only in an
+        // earlier, completed select no longer concerns the subject
         if let Some(err) = died_with {
-            let k = self.last_completed;
+            let death = self.death.clone();
+            let k = death.as_ref().map(|d| d.k).unwrap_or(self.last_completed);
             let srcs = self.sources(k);
-            // the error of a failed process listed in the current select propagates; a process listed in
-            // an earlier select that completed through another source may also still kill the subject
-            // when its failure becomes known later (the statement is silent on that; see C15)
-            let listed_now = srcs.iter().any(|s| matches!(s, Src::Proc(ci) if self.finished.get(ci).is_some_and(|(_, _, failed, val)| *failed && *val == err)));
-            let listed_before = (0..k.min(nsel)).any(|k2| self.sources(k2).iter().any(|s| matches!(s, Src::Proc(ci) if self.finished.get(ci).is_some_and(|(_, _, failed, val)| *failed && *val == err))));
-            if listed_now {
+            let failed_with = |ci: &usize| self.finished.get(ci).is_some_and(|(_, _, failed, val)| *failed && *val == err);
+            let jpos = srcs.iter().position(|s| matches!(s, Src::Proc(ci) if failed_with(ci)));
+            let listed_before = (0..k.min(nsel)).any(|k2| self.sources(k2).iter().any(|s| matches!(s, Src::Proc(ci) if failed_with(ci))));
+            if let Some(j) = jpos {
                 self.probe("failed_child_propagated");
+                if let Some(d) = &death {
+                    for (i, s) in srcs.iter().enumerate().take(j) {
+                        let ready: Option<String> = match s {
+                            Src::Timeout(dur) => self.start_time.get(&k).filter(|st| d.clock.saturating_sub(**st) >= *dur).map(|st| format!("timeout {dur} had elapsed (start {st}, now {})", d.clock)),
+                            Src::Proc(ci) => {
+                                if d.known.get(ci).copied().unwrap_or(false) && self.finished.get(ci).is_some_and(|(_, _, failed, _)| !*failed) {
+                                    Some(format!("process p{ci} had finished and its result was known to the worker"))
+                                } else {
+                                    None
+                                }
+                            }
+                            s => d.mailbox.iter().find(|x| s.accepts(x)).map(|m| format!("{} accepts {} which was in the mailbox", s.render(), m.canon())),
+                        };
+                        if let Some(why) = ready {
+                            v.push(Violation::new("C05", "priority", "failure-overtook-ready-source", format!("select {k} {:?}: the subject died of the failure of source {j} at step {} although earlier-written source {i} was ready: {why}", srcs.iter().map(|s| s.render()).collect::<Vec<_>>(), d.step), d.step));
+                            return v;
+                        }
+                    }
+                    if j > 0 {
+                        self.probe("failed_child_propagated_behind_unready_sources");
+                    }
+                }
             } else if listed_before {
-                self.probe("late_failure_of_earlier_listed_process_killed_subject_not_judged");
+                v.push(Violation::new("C05", "error-propagation", "killed-by-process-of-completed-select", format!("subject died with {err} while in select {k} {:?}; the process that failed with that error is listed only in an earlier select, which had completed", srcs.iter().map(|s| s.render()).collect::<Vec<_>>()), world.steps));
             } else {
                 v.push(Violation::new("C05", "error-propagation", "subject-died-unexpectedly", format!("subject died with {err} while in select {k} {:?}, which lists no process that failed with that error", srcs.iter().map(|s| s.render()).collect::<Vec<_>>()), world.steps));
             }
